@@ -32,6 +32,7 @@ import (
 	"verifmc/vclock"
 	"verifmc/vtask"
 
+	"github.com/LemoFoundationLtd/lemochain-core/chain/deputynode"
 	"github.com/LemoFoundationLtd/lemochain-core/chain/params"
 	"github.com/LemoFoundationLtd/lemochain-core/chain/types"
 	"github.com/LemoFoundationLtd/lemochain-core/common"
@@ -378,6 +379,18 @@ func probeTermLoad(u *nut, b *types.Block, desc string, c caseID, r *core.Result
 		drain(u.n)
 	}()
 	if poisoned {
+		if replayMode {
+			// what a restart would do: the deputy manager reloads every term from the stable snapshot blocks
+			func() {
+				defer func() {
+					if p := recover(); p != nil {
+						fmt.Printf("after the panic the snapshot block IS the stable block (%v); building a deputy manager from this database (what a restart does) panics again: %v\n", u.n.BC.StableBlock().Hash() == b.Hash(), p)
+					}
+				}()
+				deputynode.NewManager(nDep, u.n.DB)
+				fmt.Println("a deputy manager can be built from this database")
+			}()
+		}
 		os.RemoveAll(u.n.Dir)
 		return nil
 	}
